@@ -162,17 +162,68 @@ func readerTableBound(w *World, fn *ssa.Function, binds map[*ssa.Parameter]*T) r
 				continue
 			}
 		}
+		// a one-character spelling: len(s) == 1 and s[0] == c
+		charKey, lenOne, anyChar := "", false, false
+		for i := range p.Conds {
+			c := &p.Conds[i]
+			a := c.Atom
+			if a.Op == "eq" && c.Val && stripConv(a.A[0]).Op == "len" && stripConv(stripConv(a.A[0]).A[0]).Op == "p" && a.A[1].IsConstVal(1) {
+				lenOne = true
+			}
+			if a.Op == "eq" && a.A[1].IsConst() {
+				if x := stripConv(a.A[0]); x.Op == "elem" && stripConv(x.A[0]).Op == "p" && stripConv(x.A[1]).IsConstVal(0) {
+					anyChar = true
+					if c.Val {
+						charKey = string(rune(a.A[1].C))
+					}
+				}
+			}
+		}
+		// a map the package initialiser fills, looked up with the (lower-cased) parameter
+		if lk := mapLookupOf(p.Ret[0]); lk != nil && p.Ret[1].Op == "nil" {
+			ents, isTable := w.roInitMap(lk.A[0])
+			k := stripConv(lk.A[1])
+			found := hasCond(p, func(a *T, v bool) bool { return v && a.Op == "ext" && a.C == 2 && a.A[0].Key() == lk.Key() })
+			if isTable && found && (k.Op == "p" || (k.Op == "call" && k.S == "strings.ToLower" && k.A[0].Op == "p")) {
+				if k.Op == "p" {
+					rt.lowered = false
+				}
+				for _, en := range ents {
+					if v := stripConv(en.val); en.key.Op == "str" && v.IsConst() {
+						rt.m[en.key.S] = v.C
+					} else {
+						rt.problems = append(rt.problems, "table entry "+en.key.Show()+": "+en.val.Show()+" is not constant")
+					}
+				}
+				continue
+			}
+		}
 		if p.Ret[1].Op == "nil" {
-			if key == nil || !p.Ret[0].IsConst() {
+			ret := stripConv(p.Ret[0])
+			if key == nil && lenOne && charKey != "" && ret.IsConst() {
+				rt.m[charKey] = ret.C
+				continue
+			}
+			if key == nil || !ret.IsConst() {
 				rt.problems = append(rt.problems, "success path without a matched literal or with a non-constant result")
 				continue
 			}
-			rt.m[key.Atom.A[1].S] = p.Ret[0].C
-		} else if key == nil {
+			rt.m[key.Atom.A[1].S] = ret.C
+		} else if key == nil && charKey == "" {
 			rt.rejects = true
 		}
+		_ = anyChar
 	}
 	return rt
+}
+
+// mapLookupOf: t is the value half of a comma-ok map lookup.
+func mapLookupOf(t *T) *T {
+	t = stripConv(t)
+	if t.Op == "ext" && t.C == 1 && len(t.A) == 1 && t.A[0].Op == "lookup" {
+		return t.A[0]
+	}
+	return nil
 }
 
 func ruleTabMnemonic(w *World, r *RuleResult) {
@@ -524,9 +575,25 @@ func retSetBound(w *World, fn *ssa.Function, binds map[*ssa.Parameter]*T) (uint6
 			}
 		}
 		if p.End == "ret" && len(p.Ret) == 2 && p.Ret[1].Op == "nil" {
-			if p.Ret[0].IsConst() {
-				s |= 1 << uint(p.Ret[0].C)
+			if c := stripConv(p.Ret[0]); c.IsConst() {
+				s |= 1 << uint(c.C)
 				continue
+			}
+			// a map the package initialiser fills: any of its values
+			if lk := mapLookupOf(p.Ret[0]); lk != nil {
+				if ents, isTable := w.roInitMap(lk.A[0]); isTable {
+					allConst := true
+					for _, en := range ents {
+						if v := stripConv(en.val); v.IsConst() && v.C >= 0 && v.C < 64 {
+							s |= 1 << uint(v.C)
+						} else {
+							allConst = false
+						}
+					}
+					if allConst {
+						continue
+					}
+				}
 			}
 			// the value read by another reader, possibly narrowed by tests on it
 			g, set, ok := delegated(w, fn, p)
